@@ -31,13 +31,14 @@ func init() {
 		ID: "C04",
 		Explain: "Decides the link mechanism of ParseRealtime structurally: (LINK) every store to Trip.Vehicle / Vehicle.Trip targets and stores accumulator entries (never a temporary copy of a parsed entity) and happens after the entity loop, so no later merge can erase it; the two association tables are updated together with swapped key and value; on every path where an entity yields both a trip and a vehicle the pair is recorded; every association table is resolved in a loop over the accumulators; within a resolution iteration the links are stored before the entry is copied into the result; " +
 			"each association table is written under the same test that decides where the vehicle itself is kept (the table that keeps the parsed vehicle only under vehicle.ID == nil, the id-keyed ones only under vehicle.ID != nil); no path of one trip around the entity loop on which the entity yields both a trip and a vehicle returns to the loop head without passing one of the link-table updates; (GUARD) the entity parsers return a nil trip/vehicle only when the wire field is absent, so every expression of an association reaches the tables; an identifier object is produced only for a descriptor that identifies something (every non-nil result of the descriptor-to-VehicleID conversion has ruled out the all-empty identifier), so empty descriptors do not share one identified entry; the identifier (the map key that unifies the mentions of a vehicle) is built from the descriptor's id, label and licence plate only; no Location constructor (time.LoadLocation, FixedZone) can run more than once per message, because trip identifiers carry a time.Time and are compared with == (which compares the Location pointer). " +
-			"Equality of the content reached through the links with the list entries follows from the copies being taken after the links are stored (checked) plus C07. Not decided: feeds with several vehicles per trip (excluded).",
+			"Equality of the content reached through the links with the list entries follows from the copies being taken after the links are stored (checked) plus C07. Not decided: feeds with several vehicles per trip (excluded). (EXTV) an extension that derives the vehicle of an entity puts the same descriptor on the trip update and the vehicle position, on every path, so both link to one vehicle.",
 		Rules: []Rule{
 			{Name: "A3", Doc: "identifier fields of trips and vehicles are bound to their own wire fields: which entities are one vehicle (and get linked) is decided on id, label and licence plate as sent", MinInstances: 35, Run: runWireTable},
 			{Name: "LINK", Doc: "trip<->vehicle link discipline", MinInstances: 5, Run: runLinkRules},
 			{Name: "TID", Doc: "a start time / start date of a trip identifier is dropped only when absent or not matching its pattern (hours past 23 are valid): trips that differ in start time keep separate entries and separate vehicles", MinInstances: 2, Run: func(c *Ctx) { runStartAcceptance(c, "TID") }},
 			{Name: "MERGE", Doc: "the objects the cross pointers lead to are the accumulators, one per whole identifier: every parsed trip / identified vehicle is merged into the entry looked up under its own id (a shortened or re-derived key lets two vehicles share one entry, and both trips then point at the same vehicle)", MinInstances: 7, Run: runMergeRules},
 			{Name: "GUARD", Doc: "entity parsers return nil only for absent wire fields", MinInstances: 2, Run: runParserGuards},
+			{Name: "EXTV", Doc: "an extension that derives the vehicle of an entity gives the trip update and the vehicle position of one trip the same descriptor: both link to one vehicle", MinInstances: 1, Run: runSameVehicleForBothEntities},
 		},
 	})
 }
